@@ -2092,9 +2092,7 @@ bn_and(bn_p bn, bn_p n) {
 	for (i = 0; i < digits; i ++) {
 		bn->num[i] &= n->num[i];
 	}
-	if (bn->count > digits) {
-		bn->num[digits] = 0;
-	}
+	bn->digits = digits; /* Digits of bn above n are and-ed with zero. */
 	bn_update_digits__int(bn, digits);
 	return (0);
 }
